@@ -84,7 +84,8 @@ fn take_cached(key: u64) -> Option<Db> {
 fn put_cached(key: u64, db: Option<Db>) {
     let mut c = DB_CACHE.lock().unwrap();
     if let Some(db) = db {
-        if !db.tainted {
+        // on-disk instances are not kept: their scratch directory is removed when they are dropped
+        if !db.tainted && !db.on_disk() {
             c.push((key, Some(db)));
         }
     }
